@@ -22,13 +22,33 @@
 //! `dsvc`                           drop the PortFactory (ports and handles live on)
 //! `count`                          dynamic config: number of registered writers / readers
 //!
+//!
+//! Custom-key path (what the C / C++ / Python bindings use): `new local-custom …` / `new ipc-custom …` creates the
+//! service with `blackboard_creator::<CustomKeyMarker>()` + `__internal_set_key_type_details(u64)` +
+//! `__internal_set_key_eq_cmp_func` + `__internal_add`; in such a world EVERY call goes through the internal API:
+//! `hmutx w k h t` (alias `hmut`)   Writer::__internal_entry(key ptr, TypeDetail of t) -> __InternalEntryHandleMut
+//! `dhmut h`                        drop of the __InternalEntryHandleMut (its own `Drop` releases the producer flag)
+//! `update h v`                     __internal_get_ptr_to_write_cell(size, align) + raw copy + __internal_update_write_cell
+//!                                  (= iox2_entry_handle_mut_update_with_copy of the C binding)
+//! `loan h l`                       __InternalEntryHandleMut::loan_uninit(size, align) -> __InternalEntryValueUninit
+//! `lwrite l v`                     raw copy to __InternalEntryValueUninit::write_cell()
+//! `lcommit l`                      __InternalEntryValueUninit::update      `commit l v` = raw copy + update
+//! `discard l` / `dloan l`          __InternalEntryValueUninit::discard / drop
+//! `hx r k g t` (alias `hget`)      Reader::__internal_entry -> __InternalEntryHandle
+//! `get g` / `fresh g`              __InternalEntryHandle::get(value ptr, size, align, &mut generation) / is_up_to_date(generation)
+//! The answers are the same model operations (the Lean driver reads `hmutx` as `hmut`, `hx` as `hget`).
+//!
 //! Independent oracles (not the model): at most one live Writer, at most one live write handle (or loan) per key,
 //! at most one registered writer, a value read is self-consistent, was written to that key and is not older than
 //! one the same read handle has seen before; every live read handle is re-read after every call.
 use crate::common::*;
-use iceoryx2::port::reader::{BlackboardValue, EntryHandle, Reader};
-use iceoryx2::port::writer::{EntryHandleMut, EntryValueUninit, Writer};
+use iceoryx2::constants::MAX_BLACKBOARD_KEY_SIZE;
+use iceoryx2::port::reader::{__InternalEntryHandle, BlackboardValue, EntryHandle, Reader};
+use iceoryx2::port::writer::{__InternalEntryHandleMut, __InternalEntryValueUninit, EntryHandleMut, EntryValueUninit, Writer};
 use iceoryx2::prelude::*;
+use iceoryx2::service::marker::CustomKeyMarker;
+use iceoryx2::service::resource::blackboard::KeyMemory;
+use iceoryx2::service::static_config::message_type_details::{TypeDetail, TypeVariant};
 use iceoryx2::service::port_factory::blackboard::PortFactory as BbFactory;
 use std::collections::{BTreeSet, HashMap};
 
@@ -71,20 +91,133 @@ impl Pat for TC {
     }
 }
 
+/// value type of an entry as the language bindings see it: name + size + alignment, values are raw bytes
+#[derive(Clone, Copy, PartialEq)]
+enum Ty {
+    A,
+    B,
+    C,
+}
+impl Ty {
+    fn parse(s: &str) -> Option<Ty> {
+        match s {
+            "a" => Some(Ty::A),
+            "b" => Some(Ty::B),
+            "c" => Some(Ty::C),
+            _ => None,
+        }
+    }
+    /// the type details a binding would pass for the requested type (`d` = i64: layout of `a`, other name)
+    fn details(s: &str) -> TypeDetail {
+        match s {
+            "a" => TypeDetail::new::<TA>(TypeVariant::FixedSize),
+            "b" => TypeDetail::new::<TB>(TypeVariant::FixedSize),
+            "c" => TypeDetail::new::<TC>(TypeVariant::FixedSize),
+            _ => TypeDetail::new::<TD>(TypeVariant::FixedSize),
+        }
+    }
+    fn size(self) -> usize {
+        match self {
+            Ty::A => core::mem::size_of::<TA>(),
+            Ty::B => core::mem::size_of::<TB>(),
+            Ty::C => core::mem::size_of::<TC>(),
+        }
+    }
+    fn align(self) -> usize {
+        match self {
+            Ty::A => core::mem::align_of::<TA>(),
+            Ty::B => core::mem::align_of::<TB>(),
+            Ty::C => core::mem::align_of::<TC>(),
+        }
+    }
+    /// raw copy of the encoded value to `dst` (what `iox2_entry_handle_mut_update_with_copy` does with the caller's value)
+    unsafe fn put(self, v: u64, dst: *mut u8) {
+        macro_rules! p {
+            ($t:ty) => {{
+                let x: $t = <$t>::enc(v);
+                unsafe { core::ptr::copy_nonoverlapping(&x as *const $t as *const u8, dst, core::mem::size_of::<$t>()) };
+            }};
+        }
+        match self {
+            Ty::A => p!(TA),
+            Ty::B => p!(TB),
+            Ty::C => p!(TC),
+        }
+    }
+    /// lets `f` fill a properly aligned value of this type and decodes it
+    unsafe fn fetch(self, f: impl FnOnce(*mut u8)) -> Option<u64> {
+        macro_rules! g {
+            ($t:ty) => {{
+                let mut x = core::mem::MaybeUninit::<$t>::zeroed();
+                f(x.as_mut_ptr() as *mut u8);
+                unsafe { x.assume_init() }.dec()
+            }};
+        }
+        match self {
+            Ty::A => g!(TA),
+            Ty::B => g!(TB),
+            Ty::C => g!(TC),
+        }
+    }
+}
+
 enum HM<S: Service> {
     A(EntryHandleMut<S, u64, TA>),
     B(EntryHandleMut<S, u64, TB>),
     C(EntryHandleMut<S, u64, TC>),
+    X(__InternalEntryHandleMut<S>, Ty),
 }
 enum LN<S: Service> {
     A(EntryValueUninit<S, u64, TA>),
     B(EntryValueUninit<S, u64, TB>),
     C(EntryValueUninit<S, u64, TC>),
+    X(__InternalEntryValueUninit<S>, Ty),
 }
 enum RH<S: Service> {
     A(EntryHandle<S, u64, TA>, Option<BlackboardValue<TA>>),
     B(EntryHandle<S, u64, TB>, Option<BlackboardValue<TB>>),
     C(EntryHandle<S, u64, TC>, Option<BlackboardValue<TC>>),
+    /// the generation counter handed out by the last `get`
+    X(__InternalEntryHandle<S>, Ty, Option<u64>),
+}
+/// ports and the service handle of the generic (u64 key) and of the custom-key world
+enum WP<S: Service> {
+    G(Writer<S, u64>),
+    X(Writer<S, CustomKeyMarker>),
+}
+enum RP<S: Service> {
+    G(Reader<S, u64>),
+    X(Reader<S, CustomKeyMarker>),
+}
+enum SV<S: Service> {
+    G(BbFactory<S, u64>),
+    X(BbFactory<S, CustomKeyMarker>),
+}
+impl<S: Service> SV<S> {
+    fn create_writer(&self) -> Result<WP<S>, String> {
+        match self {
+            SV::G(s) => s.writer_builder().create().map(WP::G).map_err(|e| format!("err:{e:?}")),
+            SV::X(s) => s.writer_builder().create().map(WP::X).map_err(|e| format!("err:{e:?}")),
+        }
+    }
+    fn create_reader(&self) -> Result<RP<S>, String> {
+        match self {
+            SV::G(s) => s.reader_builder().create().map(RP::G).map_err(|e| format!("err:{e:?}")),
+            SV::X(s) => s.reader_builder().create().map(RP::X).map_err(|e| format!("err:{e:?}")),
+        }
+    }
+    fn writers(&self) -> usize {
+        match self {
+            SV::G(s) => s.dynamic_config().number_of_writers(),
+            SV::X(s) => s.dynamic_config().number_of_writers(),
+        }
+    }
+    fn readers(&self) -> usize {
+        match self {
+            SV::G(s) => s.dynamic_config().number_of_readers(),
+            SV::X(s) => s.dynamic_config().number_of_readers(),
+        }
+    }
 }
 impl<S: Service> HM<S> {
     fn update(&self, v: u64) {
@@ -92,6 +225,11 @@ impl<S: Service> HM<S> {
             HM::A(h) => h.update_with_copy(TA::enc(v)),
             HM::B(h) => h.update_with_copy(TB::enc(v)),
             HM::C(h) => h.update_with_copy(TC::enc(v)),
+            HM::X(h, ty) => unsafe {
+                let cell = h.__internal_get_ptr_to_write_cell(ty.size(), ty.align());
+                ty.put(v, cell);
+                h.__internal_update_write_cell();
+            },
         }
     }
     fn loan(self) -> LN<S> {
@@ -99,6 +237,7 @@ impl<S: Service> HM<S> {
             HM::A(h) => LN::A(h.loan_uninit()),
             HM::B(h) => LN::B(h.loan_uninit()),
             HM::C(h) => LN::C(h.loan_uninit()),
+            HM::X(h, ty) => LN::X(h.loan_uninit(ty.size(), ty.align()), ty),
         }
     }
 }
@@ -114,6 +253,7 @@ impl<S: Service> LN<S> {
             LN::C(l) => {
                 l.value_mut().write(TC::enc(v));
             }
+            LN::X(l, ty) => unsafe { ty.put(v, l.write_cell()) },
         }
     }
     fn assume_init(self) -> HM<S> {
@@ -122,6 +262,7 @@ impl<S: Service> LN<S> {
                 LN::A(l) => HM::A(l.assume_init_and_update()),
                 LN::B(l) => HM::B(l.assume_init_and_update()),
                 LN::C(l) => HM::C(l.assume_init_and_update()),
+                LN::X(l, ty) => HM::X(l.update(), ty),
             }
         }
     }
@@ -130,6 +271,11 @@ impl<S: Service> LN<S> {
             LN::A(l) => HM::A(l.update_with_copy(TA::enc(v))),
             LN::B(l) => HM::B(l.update_with_copy(TB::enc(v))),
             LN::C(l) => HM::C(l.update_with_copy(TC::enc(v))),
+            LN::X(l, ty) => {
+                // the bindings have no update_with_copy on the loan: write + update
+                unsafe { ty.put(v, l.write_cell()) };
+                HM::X(l.update(), ty)
+            }
         }
     }
     fn discard(self) -> HM<S> {
@@ -137,6 +283,7 @@ impl<S: Service> LN<S> {
             LN::A(l) => HM::A(l.discard()),
             LN::B(l) => HM::B(l.discard()),
             LN::C(l) => HM::C(l.discard()),
+            LN::X(l, ty) => HM::X(l.discard(), ty),
         }
     }
 }
@@ -157,6 +304,16 @@ impl<S: Service> RH<S> {
             RH::A(h, last) => g!(h, last),
             RH::B(h, last) => g!(h, last),
             RH::C(h, last) => g!(h, last),
+            RH::X(h, ty, last) => {
+                let mut generation = 0u64;
+                let gen_ptr: *mut u64 = if keep { &mut generation } else { core::ptr::null_mut() };
+                let (size, align) = (ty.size(), ty.align());
+                let r = unsafe { ty.fetch(|p| h.get(p, size, align, gen_ptr)) };
+                if keep {
+                    *last = Some(generation);
+                }
+                r
+            }
         }
     }
     fn fresh(&self) -> Option<bool> {
@@ -164,6 +321,7 @@ impl<S: Service> RH<S> {
             RH::A(h, last) => last.as_ref().map(|v| h.is_up_to_date(v)),
             RH::B(h, last) => last.as_ref().map(|v| h.is_up_to_date(v)),
             RH::C(h, last) => last.as_ref().map(|v| h.is_up_to_date(v)),
+            RH::X(h, _, last) => last.map(|g| h.is_up_to_date(g)),
         }
     }
 }
@@ -179,9 +337,9 @@ struct World<S: Service> {
     loans: HashMap<usize, (usize, Option<u64>, LN<S>)>,
     hmuts: HashMap<usize, (usize, Option<HM<S>>)>,
     rhandles: HashMap<usize, ReadHandle<S>>,
-    writers: HashMap<usize, Writer<S, u64>>,
-    readers: HashMap<usize, Reader<S, u64>>,
-    service: Option<BbFactory<S, u64>>,
+    writers: HashMap<usize, WP<S>>,
+    readers: HashMap<usize, RP<S>>,
+    service: Option<SV<S>>,
     _node: Node<S>,
     nkeys: usize,
     used: [BTreeSet<usize>; 5], // labels ever used: w r h l g
@@ -235,16 +393,20 @@ fn mk<S: Service>(t: &[&str]) -> Result<World<S>, String> {
     config.global.prefix = iceoryx2_bb_system_types::file_name::FileName::new(prefix.as_bytes()).unwrap();
     let node = NodeBuilder::new().config(&config).create::<S>().map_err(|e| format!("err:node:{e:?}"))?;
     let name = ServiceName::new(&format!("verif/blackboard/{}/{k}", std::process::id())).unwrap();
-    let mut b = node.service_builder(&name).blackboard_creator::<u64>().max_readers(n(t[2]));
-    for (i, ty) in t[3..].iter().enumerate() {
-        b = match *ty {
-            "a" => b.add::<TA>(i as u64, TA::enc(0)),
-            "b" => b.add::<TB>(i as u64, TB::enc(0)),
-            "c" => b.add::<TC>(i as u64, TC::enc(0)),
-            _ => panic!("bad type"),
-        };
-    }
-    let service = b.create().map_err(|e| format!("err:service:{e:?}"))?;
+    let service = if t[1].ends_with("-custom") {
+        SV::X(mk_custom(&node, &name, t)?)
+    } else {
+        let mut b = node.service_builder(&name).blackboard_creator::<u64>().max_readers(n(t[2]));
+        for (i, ty) in t[3..].iter().enumerate() {
+            b = match *ty {
+                "a" => b.add::<TA>(i as u64, TA::enc(0)),
+                "b" => b.add::<TB>(i as u64, TB::enc(0)),
+                "c" => b.add::<TC>(i as u64, TC::enc(0)),
+                _ => panic!("bad type"),
+            };
+        }
+        SV::G(b.create().map_err(|e| format!("err:service:{e:?}"))?)
+    };
     let nkeys = t.len() - 3;
     Ok(World {
         loans: HashMap::new(),
@@ -257,8 +419,50 @@ fn mk<S: Service>(t: &[&str]) -> Result<World<S>, String> {
         nkeys,
         used: Default::default(),
         written: (0..nkeys).map(|_| [0u64].into_iter().collect()).collect(),
-        _cleanup: Cleanup { prefix, ipc: t[1] == "ipc" },
+        _cleanup: Cleanup { prefix, ipc: t[1].starts_with("ipc") },
     })
+}
+
+fn cmp_u64(lhs: *const u8, rhs: *const u8) -> bool {
+    unsafe { *(lhs as *const u64) == *(rhs as *const u64) }
+}
+
+/// the service the way the language bindings create it: key type = CustomKeyMarker + type details of u64 + an own
+/// key comparison, every entry through `__internal_add` (key pointer, pointer to the initial value, type details,
+/// release callback of the value)
+fn mk_custom<S: Service>(node: &Node<S>, name: &ServiceName, t: &[&str]) -> Result<BbFactory<S, CustomKeyMarker>, String> {
+    let mut b = unsafe {
+        node.service_builder(name)
+            .blackboard_creator::<CustomKeyMarker>()
+            .max_readers(n(t[2]))
+            .__internal_set_key_type_details(&TypeDetail::new::<u64>(TypeVariant::FixedSize))
+            .__internal_set_key_eq_cmp_func(Box::new(move |lhs, rhs| KeyMemory::<MAX_BLACKBOARD_KEY_SIZE>::key_eq_comparison(lhs, rhs, &cmp_u64)))
+    };
+    for (i, ty) in t[3..].iter().enumerate() {
+        let key = i as u64;
+        macro_rules! add {
+            ($t:ty) => {{
+                // the initial value lives on the heap until the builder releases it through the callback
+                let v: *mut $t = Box::into_raw(Box::new(<$t>::enc(0)));
+                let addr = v as usize;
+                unsafe {
+                    b.__internal_add(
+                        &key as *const u64 as *const u8,
+                        v as *mut u8,
+                        TypeDetail::new::<$t>(TypeVariant::FixedSize),
+                        Box::new(move || drop(Box::from_raw(addr as *mut $t))),
+                    )
+                }
+            }};
+        }
+        b = match *ty {
+            "a" => add!(TA),
+            "b" => add!(TB),
+            "c" => add!(TC),
+            _ => panic!("bad type"),
+        };
+    }
+    b.create().map_err(|e| format!("err:service:{e:?}"))
 }
 
 const W: usize = 0;
@@ -275,13 +479,13 @@ fn exec<S: Service>(w: &mut World<S>, t: &[&str]) -> String {
             } else if w.service.is_none() {
                 "no-service".into()
             } else {
-                match w.service.as_ref().unwrap().writer_builder().create() {
+                match w.service.as_ref().unwrap().create_writer() {
                     Ok(p) => {
                         w.used[W].insert(n(t[1]));
                         w.writers.insert(n(t[1]), p);
                         "ok".into()
                     }
-                    Err(e) => format!("err:{e:?}"),
+                    Err(e) => e,
                 }
             }
         }
@@ -298,13 +502,13 @@ fn exec<S: Service>(w: &mut World<S>, t: &[&str]) -> String {
             } else if w.service.is_none() {
                 "no-service".into()
             } else {
-                match w.service.as_ref().unwrap().reader_builder().create() {
+                match w.service.as_ref().unwrap().create_reader() {
                     Ok(p) => {
                         w.used[R].insert(n(t[1]));
                         w.readers.insert(n(t[1]), p);
                         "ok".into()
                     }
-                    Err(e) => format!("err:{e:?}"),
+                    Err(e) => e,
                 }
             }
         }
@@ -315,8 +519,8 @@ fn exec<S: Service>(w: &mut World<S>, t: &[&str]) -> String {
             }
             None => "none".into(),
         },
-        "hmut" => {
-            // hmut <w> <k> <h> <t>
+        "hmut" | "hmutx" => {
+            // hmut <w> <k> <h> <t>   (hmutx: the same through Writer::__internal_entry, custom-key worlds only)
             let (wl, k, h) = (n(t[1]), n(t[2]), n(t[3]));
             if w.used[H].contains(&h) {
                 "dup".into()
@@ -325,11 +529,17 @@ fn exec<S: Service>(w: &mut World<S>, t: &[&str]) -> String {
                     None => "none".into(),
                     Some(p) => {
                         let key = k as u64;
-                        let res: Result<Option<HM<S>>, String> = match t[4] {
-                            "a" => p.entry::<TA>(&key).map(|x| Some(HM::A(x))).map_err(|e| format!("{e:?}")),
-                            "b" => p.entry::<TB>(&key).map(|x| Some(HM::B(x))).map_err(|e| format!("{e:?}")),
-                            "c" => p.entry::<TC>(&key).map(|x| Some(HM::C(x))).map_err(|e| format!("{e:?}")),
-                            _ => p.entry::<TD>(&key).map(|_| None).map_err(|e| format!("{e:?}")),
+                        let res: Result<Option<HM<S>>, String> = match p {
+                            WP::G(_) if t[0] == "hmutx" => panic!("bad op"),
+                            WP::G(p) => match t[4] {
+                                "a" => p.entry::<TA>(&key).map(|x| Some(HM::A(x))).map_err(|e| format!("{e:?}")),
+                                "b" => p.entry::<TB>(&key).map(|x| Some(HM::B(x))).map_err(|e| format!("{e:?}")),
+                                "c" => p.entry::<TC>(&key).map(|x| Some(HM::C(x))).map_err(|e| format!("{e:?}")),
+                                _ => p.entry::<TD>(&key).map(|_| None).map_err(|e| format!("{e:?}")),
+                            },
+                            WP::X(p) => unsafe { p.__internal_entry(&key as *const u64 as *const u8, &Ty::details(t[4])) }
+                                .map(|x| Ty::parse(t[4]).map(|ty| HM::X(x, ty)))
+                                .map_err(|e| format!("{e:?}")),
                         };
                         match res {
                             Ok(Some(hm)) => {
@@ -422,8 +632,8 @@ fn exec<S: Service>(w: &mut World<S>, t: &[&str]) -> String {
                 "ok".into()
             }
         },
-        "hget" => {
-            // hget <r> <k> <g> <t>
+        "hget" | "hx" => {
+            // hget <r> <k> <g> <t>   (hx: the same through Reader::__internal_entry, custom-key worlds only)
             let (rl, k, g) = (n(t[1]), n(t[2]), n(t[3]));
             if w.used[G].contains(&g) {
                 "dup".into()
@@ -432,11 +642,17 @@ fn exec<S: Service>(w: &mut World<S>, t: &[&str]) -> String {
                     None => "none".into(),
                     Some(p) => {
                         let key = k as u64;
-                        let res: Result<Option<RH<S>>, String> = match t[4] {
-                            "a" => p.entry::<TA>(&key).map(|x| Some(RH::A(x, None))).map_err(|e| format!("{e:?}")),
-                            "b" => p.entry::<TB>(&key).map(|x| Some(RH::B(x, None))).map_err(|e| format!("{e:?}")),
-                            "c" => p.entry::<TC>(&key).map(|x| Some(RH::C(x, None))).map_err(|e| format!("{e:?}")),
-                            _ => p.entry::<TD>(&key).map(|_| None).map_err(|e| format!("{e:?}")),
+                        let res: Result<Option<RH<S>>, String> = match p {
+                            RP::G(_) if t[0] == "hx" => panic!("bad op"),
+                            RP::G(p) => match t[4] {
+                                "a" => p.entry::<TA>(&key).map(|x| Some(RH::A(x, None))).map_err(|e| format!("{e:?}")),
+                                "b" => p.entry::<TB>(&key).map(|x| Some(RH::B(x, None))).map_err(|e| format!("{e:?}")),
+                                "c" => p.entry::<TC>(&key).map(|x| Some(RH::C(x, None))).map_err(|e| format!("{e:?}")),
+                                _ => p.entry::<TD>(&key).map(|_| None).map_err(|e| format!("{e:?}")),
+                            },
+                            RP::X(p) => unsafe { p.__internal_entry(&key as *const u64 as *const u8, &Ty::details(t[4])) }
+                                .map(|x| Ty::parse(t[4]).map(|ty| RH::X(x, ty, None)))
+                                .map_err(|e| format!("{e:?}")),
                         };
                         match res {
                             Ok(Some(h)) => {
@@ -483,7 +699,7 @@ fn exec<S: Service>(w: &mut World<S>, t: &[&str]) -> String {
             None => "none".into(),
         },
         "count" => match w.service.as_ref() {
-            Some(s) => format!("w={},r={}", s.dynamic_config().number_of_writers(), s.dynamic_config().number_of_readers()),
+Some(s) => format!("w={},r={}", s.writers(), s.readers()),
             None => "no-service".into(),
         },
         _ => panic!("bad op"),
@@ -500,13 +716,13 @@ fn exec<S: Service>(w: &mut World<S>, t: &[&str]) -> String {
         oracle_fail("two live write handles for one key".into());
     }
     if let Some(s) = w.service.as_ref() {
-        if s.dynamic_config().number_of_writers() > 1 {
+        if s.writers() > 1 {
             oracle_fail("two registered writers".into());
         }
-        if s.dynamic_config().number_of_writers() < w.writers.len() {
+        if s.writers() < w.writers.len() {
             oracle_fail("live writer is not registered".into());
         }
-        if s.dynamic_config().number_of_readers() != w.readers.len() {
+        if s.readers() != w.readers.len() {
             oracle_fail("registered readers differ from live readers".into());
         }
     }
@@ -533,7 +749,7 @@ impl Comp for BlackboardComp {
         if t[0] == "new" {
             self.w = AnyWorld::None;
             return match t[1] {
-                "local" => match mk::<local::Service>(t) {
+                "local" | "local-custom" => match mk::<local::Service>(t) {
                     Ok(w) => {
                         self.w = AnyWorld::Local(Box::new(w));
                         "ok".into()
@@ -563,9 +779,17 @@ impl Comp for BlackboardComp {
 const TYS: [&str; 3] = ["a", "b", "c"];
 
 pub fn generate(a: &Args) -> Vec<Vec<String>> {
-    let variant = a.rest.iter().find(|x| *x == "ipc").map(|_| "ipc").unwrap_or("local");
+    let custom = a.rest.iter().any(|x| x == "custom");
+    let variant = match (a.rest.iter().any(|x| x == "ipc"), custom) {
+        (false, false) => "local",
+        (true, false) => "ipc",
+        (false, true) => "local-custom",
+        (true, true) => "ipc-custom",
+    };
+    // generator word `custom`: the same histories (same random choices) through the internal API of the bindings
+    let (hmut, hget) = if custom { ("hmutx", "hx") } else { ("hmut", "hget") };
     if a.exhaustive > 0 {
-        return exhaustive(a, variant);
+        return exhaustive(a, variant, hmut, hget);
     }
     let mut rng = Rng::new(a.seed);
     let mut cases = vec![];
@@ -690,14 +914,14 @@ pub fn generate(a: &Args) -> Vec<Vec<String>> {
                         }
                     }
                     if invalid && cnt[H] > 0 && rng.chance(20) {
-                        format!("hmut {w} {key} {} {ty}", rng.below(cnt[H] as u64))
+                        format!("{hmut} {w} {key} {} {ty}", rng.below(cnt[H] as u64))
                     } else {
                         let h = cnt[H];
                         if good {
                             cnt[H] += 1;
                             hmuts.push((h, key));
                         }
-                        format!("hmut {w} {key} {h} {ty}")
+                        format!("{hmut} {w} {key} {h} {ty}")
                     }
                 }
                 5 => {
@@ -819,14 +1043,14 @@ pub fn generate(a: &Args) -> Vec<Vec<String>> {
                         }
                     }
                     if invalid && cnt[G] > 0 && rng.chance(20) {
-                        format!("hget {r} {key} {} {ty}", rng.below(cnt[G] as u64))
+                        format!("{hget} {r} {key} {} {ty}", rng.below(cnt[G] as u64))
                     } else {
                         let g = cnt[G];
                         if good {
                             cnt[G] += 1;
                             rhs.push(g);
                         }
-                        format!("hget {r} {key} {g} {ty}")
+                        format!("{hget} {r} {key} {g} {ty}")
                     }
                 }
                 11 => {
@@ -871,7 +1095,7 @@ pub fn generate(a: &Args) -> Vec<Vec<String>> {
 
 /// every sequence of length `exhaustive` over a fixed alphabet (labels are assigned by counters so that the same
 /// letter always means "the next new object" / "the oldest object not yet dropped")
-fn exhaustive(a: &Args, variant: &str) -> Vec<Vec<String>> {
+fn exhaustive(a: &Args, variant: &str, hmut: &str, hget: &str) -> Vec<Vec<String>> {
     let mut cases = vec![];
     let configs = ["1 a b", "2 b c"];
     let alphabet: Vec<String> = [
@@ -889,8 +1113,8 @@ fn exhaustive(a: &Args, variant: &str) -> Vec<Vec<String>> {
                 format!("new {variant} {cfg}"),
                 "cwriter 0".to_string(),
                 "creader 0".to_string(),
-                format!("hmut 0 0 0 {}", tys[0]),
-                format!("hget 0 0 0 {}", tys[0]),
+                format!("{hmut} 0 0 0 {}", tys[0]),
+                format!("{hget} 0 0 0 {}", tys[0]),
                 "update 0 1".to_string(),
                 "get 0".to_string(),
             ];
@@ -913,15 +1137,15 @@ fn exhaustive(a: &Args, variant: &str) -> Vec<Vec<String>> {
                         dw += 1;
                     }
                     "hmut 0" => {
-                        lines.push(format!("hmut {cur_w} 0 {nh} {}", tys[0]));
+                        lines.push(format!("{hmut} {cur_w} 0 {nh} {}", tys[0]));
                         nh += 1;
                     }
                     "hmut 1" => {
-                        lines.push(format!("hmut {cur_w} 1 {nh} {}", tys[1]));
+                        lines.push(format!("{hmut} {cur_w} 1 {nh} {}", tys[1]));
                         nh += 1;
                     }
                     "hmut 0 wrong" => {
-                        lines.push(format!("hmut {cur_w} 0 {nh} {}", tys[1]));
+                        lines.push(format!("{hmut} {cur_w} 0 {nh} {}", tys[1]));
                         nh += 1;
                     }
                     "dhmut" => {
@@ -956,7 +1180,7 @@ fn exhaustive(a: &Args, variant: &str) -> Vec<Vec<String>> {
                         dr += 1;
                     }
                     "hget 0" => {
-                        lines.push(format!("hget {} 0 {ng} {}", nr - 1, tys[0]));
+                        lines.push(format!("{hget} {} 0 {ng} {}", nr - 1, tys[0]));
                         ng += 1;
                     }
                     "dhget" => {
